@@ -149,7 +149,8 @@ def fancy_parent(rng, p):
 
 def odd_leaf(rng, p):
     leaf = rng.choice([('wc', False), ('lwc', False), ('gwc', True, False), ('slice', None, None, None),
-                       ('tuple', ['a', 0]), ('rec', False), ('parent',), ('pred', ('user', 'const', 1))])
+                       ('tuple', ['a', 0]), ('rec', False), ('parent',), ('pred', ('user', 'const', 1)),
+                       ('tuple', [p[-1][1]] if p and p[-1][0] in ('key', 'idx') else ['a'])])   # a comma list of one entry is not a key step (C10-m11)
     return fix_path(p[:-1] + [leaf]) if p and rng.random() < 0.5 else fix_path(p + [leaf])
 
 
